@@ -38,6 +38,16 @@ UNITS = {
                 assumptions=[], not_covered=[]),
 }
 
+UNITS['U02'] = dict(
+    kind='verus', tpl='contracts/U02_column_buffer.vx',
+    title='mem_store/column_buffer.rs: ColumnBuffer::{null,len,push_val,push_ints,push_floats,push_strings,push_nulls,push_present,init_present}, IntColBuffer::{default,push}, FloatColBuffer::push, MixedColBuffer::push',
+    assumptions=['R8: iterator parameters (impl IntoIterator) monomorphised to slices; all call sites pass arrays, Vecs or slice iterators',
+                 'R9 shims (external_body, assumed length specs): StringColBuffer (opaque; its string packing is U03), '
+                 'vx_mixed_from_strings / vx_mixed_from_data (iterator-adapter conversions into MixedColBuffer), vx_i64_to_f64, vx_to_string',
+                 'payload of float / string / mixed rows is opaque here: only row count, NULL-ness and the integer payload are views'],
+    not_covered=['ColumnBuffer::finalize and the *ColBuffer::finalize functions (Arc<Column> construction; integer part in U04)',
+                 'is_lowercase_hex / is_uppercase_hex (char iterators)'])
+
 UNITS['U09k'] = dict(
     kind='kani', crate='kani/U09', needs_lock=True,
     title='aggregate.rs / merge_aggregate.rs: SumI64, Count, MaxI64, MinI64 accumulate/combine and Combinable<i64>::combine (complete)',
@@ -62,13 +72,43 @@ UNITS['U13k'] = dict(
     assumptions=['slice: only the statements computing limit/offset/count are extracted; the row/column copying that follows uses them as offset..offset+count'],
     not_covered=['batch_merging::combine select-branch count', 'row assembly in convert_to_output_format'])
 
+UNITS['U07k'] = dict(
+    kind='kani', crate='kani/U07', needs_lock=True,
+    title='comparison_operators.rs: LessThan/LessThanEquals/Equals/NotEquals::perform over {u8,u16,u32,i64}^2 and of64, BoolOr/BoolAnd (complete)',
+    path_includes=['src/engine/operators/comparison_operators.rs'],
+    harnesses=[dict(name='proofs::cmp_%s_%s' % (a, b), clause='perform(t,u) == (int(t) REL int(u)) for REL in <,<=,=,<>', fn='BinaryOp<%s,%s,u8>::perform' % (a, b)) for a in _T4 for b in _T4]
+    + [dict(name='proofs::cmp_f64', clause='float comparisons are the IEEE relations on non-NaN operands', fn='BinaryOp<of64,of64,u8>::perform'),
+       dict(name='proofs::bool_ops', clause='BoolOr/BoolAnd are logical OR/AND on 0/1 filter bytes', fn='BoolOr/BoolAnd::perform'),
+       dict(name='proofs::vx_canary', expect_fail=True)],
+    assumptions=['shim: GenericIntVec reduced to a marker trait for {u8,u16,u32,i64}', 'filter bytes are 0 or 1 (produced by `cond as u8`)',
+                 'NaN operands excluded from the float contract (OrderedFloat total order is implementation-defined there)'],
+    not_covered=['&str comparisons (see U06)'])
+
+UNITS['U05k'] = dict(
+    kind='kani', crate='kani/U05', needs_lock=True, timeout_s=900,
+    title='codec.rs: Codec::encode_int / encode_float composed with the real comparison kernels (complete: every constant, offset, stored value)',
+    path_includes=['src/engine/operators/comparison_operators.rs'],
+    harnesses=[dict(name='proofs::offset_cmp_%s' % t, clause='forall v,y,x: perform_REL(v, encode_int(x)) == ((v + y) REL x), no overflow/panic', fn='Codec::encode_int + BinaryOp<%s,i64,u8>' % t) for t in ('u8', 'u16', 'u32')]
+    + [dict(name='proofs::toi64_identity', clause='ToI64 codec: constants unchanged', fn='Codec::encode_int/encode_float'),
+       dict(name='proofs::offset_cmp_float', solver='cadical', clause='float constant vs offset-encoded int column: same answer as on decoded values (exactness domain)', fn='Codec::encode_float'),
+       dict(name='proofs::vx_canary', expect_fail=True)],
+    assumptions=['reduced struct: Codec { ops } (six other fields dropped)',
+                 'A-float-exact: encode_float contract stated for stored values u16, |offset| <= 2^20 and constants k/4 with |constant| <= 2^20 (outside this domain f64 subtraction may round; not decided)',
+                 'decoded value of stored v under Add(t, y) is v + y (proved for the decode kernels in U04)'],
+    not_covered=['Codec::encode_str (planner objects)', 'compile_expr choice of when to translate the constant'])
+
 PROPS = {
+    'C03': dict(level='proof', units=['U01', 'U05k', 'U07k'],
+                level_text='complete Kani proofs of comparison kernels and constant translation; Verus proof of null bitmap primitives',
+                level_note='compile_expr glue, LIKE/regex, string dictionary comparisons not covered yet',
+                technique='contract-based deductive verification (Kani complete harnesses + Verus) of extracted / path-included real code',
+                assumptions=[], not_covered=[]),
     'C06': dict(level='proof', units=['U08k', 'U09k'],
                 level_text='complete (loop-free, full-domain) Kani proofs of the checked arithmetic kernels',
                 level_note='planner choice of checked vs unchecked node is not covered',
                 technique='contract-based deductive verification (Kani complete harnesses) of the real operator file',
                 assumptions=[], not_covered=[]),
-    'C01': dict(level='proof', units=['U01'],
+    'C01': dict(level='proof', units=['U01', 'U02'],
                 level_text='Verus proofs (all inputs, all iterations) of contracts on the real kernels extracted from /repo each run',
                 level_note='kernel contracts are proved; planner/executor glue, pco/lz4, CSV loader are named as unverified in evidence',
                 technique='contract-based deductive verification (Verus) of mechanically extracted functions',
